@@ -13,6 +13,15 @@ untouched ones), every byte behind the fixed part of the file (= the exact recor
 for the probes, what Bundle.size() returns, and the skip/defragment decision of every bundle.  The rest of the
 real index (untouched entries, v1 zero area, v1 index header/footer) is compared with its initial value in Python.
 
+Large bundles: a second family of histories lets a real bundle `grow` past 2^32, 2^33 and up to just below the 2^40
+limit of the formats (a sparse hole made with os.truncate plus the header file-size field, standing in for a long
+overwrite history; nothing writes gigabytes) and continues with stores, overwrites, removes, loads and the real
+defrag on both sides of the hole; these are compared with the model on lengths, headers, raw index entries and
+load results of the probe slots and size() (no whole-file reads; the independent reader uses pread).
+The index-entry arithmetic of the model (v2 decode/encode, v1 entry byte counts) is not hand-written: it is
+generated from the Python source (translator/specs/compact_fmt.py -> gen/Gen_compact_fmt.v) and Bundle_proofs.v
+proves what it has to be, so an edited shift or mask breaks a proof.
+
 Oracle (independent of the model, on the real bytes after EVERY operation): every index entry is empty or points
 at a complete record inside the file whose recorded size matches; live records are pairwise disjoint and lie
 behind the fixed part; header file-size field = file length; header max-record-size >= every live record; the
@@ -35,10 +44,11 @@ TECHNIQUE = ('Coq proof (structural invariant preserved by every operation => ev
              'real CompactCacheV1/V2 files and the real defrag_compact_cache')
 LEVEL_TEXT = ('Theorems over a byte-level Gallina model of BundleV1/BundleIndexV1/BundleDataV1/BundleV2, the bundle '
               'selection of CompactCacheBase and defrag_compact_cache: the invariant holds after every history of '
-              'store_tiles/remove_tile (any length, any batches, any data) within a bundle and across the bundles of a cache, '
-              'for both formats; defragmentation with an arbitrary skip decision per bundle returns the same bytes for '
-              'every address, produces files that satisfy the invariant and are not larger; size() is exactly fixed part + '
-              'live records.  The model is tied to the code by comparing real files byte for byte with the model evaluated '
+              'store_tiles/remove_tile (any length, any batches, any data, any tile coordinates) within a bundle and for '
+              'every bundle of a cache (v*_cache_inv_reachable), for both formats; defragmentation of a bundle and of a whole '
+              'cache with an arbitrary skip decision per bundle returns the same bytes for every address '
+              '(v*_cache_defrag_changes_no_tile), produces files that satisfy the invariant and are not larger; size() is '
+              'exactly fixed part + live records.  The model is tied to the code by comparing real files byte for byte with the model evaluated '
               'in Coq on the same histories.')
 LEVEL_NOTE = ('Trusted: Coq kernel, hand-written model Bundle.v, this harness and its independent reader.  Guards in the '
               'theorems (= what the formats can represent): tile size < 2^24 (v2) / < 2^32 (v1), data file < 2^40 bytes; '
@@ -54,7 +64,8 @@ RULE = ('case = (format, history of cache-level store/remove operations with til
         'least one overwrite or remove of a live tile and at least two live tiles at the end; distinct by full tuple')
 TRUSTED = ['model Bundle.v hand-written from mapproxy/cache/compact.py and mapproxy/script/defrag.py; tie = byte-level '
            'differential run of the real caches and the real defrag against the model',
-           'translator: Gen_compact.v (slot arithmetic, bundle key) generated from compact.py']
+           'translator: Gen_compact.v (slot arithmetic, bundle key) and Gen_compact_fmt.v (v2 index-entry decode/encode, v1 '
+           'entry byte counts) generated from compact.py; the sparse-hole construction of large bundles in the harness']
 ASSUMPTIONS = ['a write to an open file lands at the offset of the preceding seek (BufferedRandom flushes before seek)',
                'one writer per bundle at a time (FileLock, property C07)',
                'tile size < 2^24 (v2) / 2^32 (v1), data file < 2^40 bytes']
@@ -496,6 +507,8 @@ def gen_history(ctx, version, nops):
 
 def pick_thresholds(rng, sizes):
     """sizes: [(est, actual)].  Returns (pn, pd, min_bytes) away from float rounding boundaries."""
+    if rng.random() < 0.15:
+        return 0, 1, 0          # everything is rewritten, bundles without garbage included
     for _ in range(50):
         est, act = rng.choice(sizes) if sizes else (1, 1)
         frag = act - est
@@ -671,6 +684,7 @@ def corpus_cases():
 def fixed_cases():
     """Small hand-made histories (both formats): boundaries the random generator reaches only by luck."""
     d = [7, 8, 9]
+    big = [9] * 300
     cases = [
         ([], (0, 1, 0)),
         ([('R', (5, 5, 3))], (0, 1, 0)),                                               # remove on a cache without files
@@ -682,6 +696,11 @@ def fixed_cases():
         ([('S', [((1, 0, 0), d)]), ('S', [((0, 1, 0), d + d)]), ('S', [((1, 0, 0), [5])])], (1, 2, 0)),    # skipped: < 50 %
         ([('S', [((1, 0, 0), d)]), ('S', [((0, 1, 0), d + d)]), ('S', [((1, 0, 0), [5])])], (0, 1, 8)),    # skipped: 7 < 8 bytes
         ([('S', [((1, 0, 0), d)]), ('S', [((0, 1, 0), d + d)]), ('S', [((1, 0, 0), [5])])], (0, 1, 7)),    # rewritten: 7 >= 7
+        # thresholds zero: bundles WITHOUT garbage are rewritten too (new file = old size), next to bundles with
+        # garbage, on two levels: the shared tmp_defrag bundle must be gone / fresh for every bundle
+        ([('S', [((5, 5, 1), [1])]), ('S', [((200, 5, 1), big)]), ('S', [((200, 5, 1), [2])]),
+          ('S', [((6, 6, 2), [3])]), ('S', [((300, 300, 2), big)]), ('S', [((300, 300, 2), [4, 4])])], (0, 1, 0)),
+        ([('S', [((5, 5, 1), d)]), ('S', [((200, 5, 1), d + d)]), ('S', [((5, 5, 2), [1])])], (0, 1, 0)),   # no garbage at all
     ]
     return cases
 
